@@ -2,6 +2,8 @@ package contracts
 
 import (
 	"fmt"
+	"os"
+	"path/filepath"
 	"regexp"
 	"strings"
 )
@@ -27,6 +29,9 @@ func verifExists(lo, hi int, f func(int) bool) bool {
 
 // verifFresh(x): x was allocated during the call (checked only symbolically).
 func verifFresh(x interface{}) bool { return true }
+
+// verifSeparate(a, b): a and b are different memory objects (assumed of inputs, decided symbolically).
+func verifSeparate(a, b interface{}) bool { return true }
 
 // verifSnap returns an independent copy of b (used under old(...)).
 func verifSnap(b []byte) []byte {
@@ -231,7 +236,9 @@ func (pc *PkgContracts) wrap(body string) string {
 	if len(ims) > 0 {
 		b.WriteString("import (\n" + strings.Join(ims, "") + ")\n")
 	}
-	b.WriteString(helpers)
+	if src, err := os.ReadFile(filepath.Join(pc.Dir, ContractFile)); err != nil || !strings.Contains(string(src), "func verifForall(") {
+		b.WriteString(helpers)
+	}
 	b.WriteString(body)
 	return b.String()
 }
